@@ -171,11 +171,16 @@ func init() {
 		}
 		ch := args[1].(*Term)
 		n := p.ConcInt(ln, "length in Count")
-		res := c.Const(64, 0)
-		for i := 0; i < n; i++ {
-			res = c.Add(res, c.Ite(c.Eq(arr.Slots[off+i].(*Term), ch), c.Const(64, 1), c.Const(64, 0)))
+		// the sum is built in the narrowest width that holds n (cheap to bit-blast)
+		w := 8
+		for (1<<uint(w))-1 < n {
+			w += 8
 		}
-		return res
+		res := c.Const(w, 0)
+		for i := 0; i < n; i++ {
+			res = c.Add(res, c.Ite(c.Eq(arr.Slots[off+i].(*Term), ch), c.Const(w, 1), c.Const(w, 0)))
+		}
+		return c.Zext(res, 64)
 	}
 	reg(count, "internal/bytealg.Count", "internal/bytealg.CountString")
 	reg(func(t *Task, fn *ssa.Function, args []Value) Value {
